@@ -7,7 +7,7 @@ import ast
 from ..core import RuleResult, need
 from ..cfg import cfg_of
 from ..flow import flow_of, path_base
-from ..astutil import src, call_name, returns_of, walk_no_nested, is_name
+from ..astutil import src, call_name, returns_of, walk_no_nested, is_name, compare_parts
 from ..macros import macro_index
 from . import macro_rules as mr
 
@@ -270,7 +270,60 @@ def rule_r8(repo):
     return res
 
 
+# confirmed exceptions for R9: (macro name, base text) -> reason
+R9_EXEMPT = {
+    ('verit_la_generic', 'dis_eq'):
+        'only the type of the part is read (`dis_eq.arg.get_type()`) to choose between integer and real arithmetic; every literal is '
+        'classified by is_less / is_less_eq / is_equals tests in step 1, which reject any other shape',
+    ('verit_la_generic', 'dis_eq_bd'):
+        'same: `dis_eq_bd.arg.get_type()` precedes the is_less / is_less_eq tests of the same branch, which raise for any other shape',
+}
+
+
+def shape_sites(repo, mi):
+    """(key, ok, why, loc) for every term of the premises / arguments that the evaluator takes apart"""
+    from .c18_shape import ShapeAnalysis
+    f = mi.eval
+    params = f.params()
+    sa_ = ShapeAnalysis(f.node, params[1:3])
+    groups = {}
+    for a, base, canon in sa_.sites():
+        groups.setdefault(src(base, 200), []).append((a, canon))
+    out = []
+    for base_txt, sites in sorted(groups.items()):
+        bad = []
+        for a, canon in sites:
+            r = sa_.check(a, canon)
+            if r is False:
+                bad.append(a)
+        key = '%s :: eval :: shape-of(%s)' % (mi.key, base_txt[:60])
+        ex = R9_EXEMPT.get((mi.names[0], base_txt))
+        if bad and ex:
+            out.append((key, True, 'confirmed exception: ' + ex, '%s:%d' % (f.module.rel, bad[0].lineno)))
+            continue
+        out.append((key, not bad,
+                    'its head connective (or the whole term) is tested before it is taken apart' if not bad else
+                    '`%s.%s` (line %d) is read without any test of what `%s` is: a term with another connective in the same positions '
+                    '(a | b for a <--> b, p & q for ~q ...) is taken apart the same way and the step is accepted' % (
+                        base_txt[:40], bad[0].attr, bad[0].lineno, base_txt[:40]),
+                    '%s:%d' % (f.module.rel, (bad[0] if bad else sites[0][0]).lineno)))
+    return out
+
+
+def rule_r9(repo):
+    """An evaluator reads the parts of a premise or of a goal literal by position (`.arg`, `.arg1`,
+    `.args`).  Positions mean something only under a known head connective: the evaluator must have tested
+    it (is_not(), is_conj(), is_equals(), is_comb(..)) or compared the whole term with an expected term."""
+    res = RuleResult('C18.R9', 'a premise or goal literal is taken apart only after its head connective was tested', floor=80)
+    for mi in macro_index(repo):
+        if mi.eval is None or not mr.verit_macros(mi):
+            continue
+        for key, ok, why, loc in shape_sites(repo, mi):
+            res.add(key, ok, why, loc)
+    return res
+
+
 def rules(repo):
     r1 = mr.zip_rule(repo, 'C18.R1', mr.verit_eval_side_functions(repo), floor=9)
     r2 = mr.hyps_rule(repo, 'C18.R2', mr.verit_macros, floor=80)
-    return [r1, r2, rule_r3(repo), rule_r4(repo), rule_r5(repo), rule_r6(repo), rule_r7(repo), rule_r8(repo)]
+    return [r1, r2, rule_r3(repo), rule_r4(repo), rule_r5(repo), rule_r6(repo), rule_r7(repo), rule_r8(repo), rule_r9(repo)]
